@@ -16,7 +16,8 @@ def unit_optim_pairing():
     harness = """
 void vf_harness()
 {
-  ACovAnisoList L; Db d1, d2; VectorInt n1, n2; CovCalcMode m;
+  ACovAnisoList L; Db d1, d2; VectorInt n1, n2; CovCalcMode m; m.all = nondet_bool(); m.nact = nondet_int(); __CPROVER_assume(0 <= m.nact && m.nact <= 2);
+  m.act[0] = nondet_int(); m.act[1] = nondet_int(); __CPROVER_assume(0 <= m.act[0] && m.act[0] <= 1 && 0 <= m.act[1] && m.act[1] <= 1);
   g_cache_live = 0;                                   /* requires: no cache pending */
   const Db* p2 = nondet_bool() ? &d2 : (const Db*)0;
   if (nondet_bool()) L.evalCovMatrixOptim(&d1, p2, nondet_int(), nondet_int(), n1, n2, &m);
@@ -29,15 +30,16 @@ void vf_harness()
                 harness=harness, havoc_loops=True, checks=[],
                 claim=("ACovAnisoList::evalCovMatrixOptim / evalCovMatrixSymmetricOptim (real text verbatim, C++ front end): every exit path pairs "
                        "optimizationPreProcess with optimizationPostProcess, and the per-structure evaluation runs only in between — a call "
-                       "(including one that returns the empty matrix) leaves no pre-projected sample cache for the next call to pick up"),
+                       "(including one that returns the empty matrix) leaves no pre-projected sample cache for the next call to pick up; only the basic structures "
+                       "active in the calculation mode are evaluated"),
                 assumptions=["Route X: function text 100% verbatim against hand-written stub classes (stubs/cov_optim_stub.hpp); contracts in "
                              "assume/assert form because CBMC's C++ front end rejects the contract keywords",
                              "loops over-approximated by goto-instrument --havoc-loops (sound for this typestate obligation, any iteration count)",
                              "only the typestate assertions are checked in this unit (arithmetic/pointer checks are meaningless on havocked loop state)",
                              "stub ghost: optimizationPreProcess sets / optimizationPostProcess clears g_cache_live (their bodies are ACov.cpp:66-95)"],
                 trusted=["stub classes Db/VectorInt/MatrixRectangular/CovAniso mirror only the members used by the two functions"],
-                canaries=[{"fn": "ACovAnisoList::evalCovMatrixSymmetricOptim", "rx": r"  optimizationPostProcess\(\);\n  return mat;", "rp": "  return mat;",
-                           "expect": r"vf_harness\.assertion"}])
+                canaries=[{"fn": "ACovAnisoList::evalCovMatrixOptim", "rx": r"    optimizationPostProcess\(\);\n    return mat;", "rp": "    optimizationSetTarget(p2);\n    return mat;",
+                           "expect": r"vf_harness\.assertion"}])      # (removing the FINAL post-process makes goto-instrument --havoc-loops crash: the early-exit one is used)
 
 
 KC = "src/Estimation/KrigingCalcul.cpp"
@@ -306,8 +308,60 @@ void vf_harness(void)
                 canaries=[{"fn": "KrigingSystem::estimate", "rx": r"status = _prepar\(\);", "rp": "_prepar();", "expect": r"assertion"}])
 
 
+def unit_single_target():
+    """CalcKriging::_run with a single target requested (krigtest): exactly that target is processed, and its system is the one exported"""
+    pre = """
+#define nullptr 0
+int nondet_int(); bool nondet_bool();
+struct Db { int n; int getSampleNumber() const { return n; } };
+struct Model {}; struct ANeigh {}; struct EKrigOpt {}; struct VectorInt {}; struct MatrixRectangular {}; struct VectorDouble {}; struct MatrixSquareSymmetric {}; struct AAnam {};
+struct OptDbg { static void defineAll() {} static void undefineAll() {} };
+static void mes_process(const char*, int, int) {}
+int g_est_calls, g_est_last, g_export_calls, g_export_after;
+class KrigingSystem { public:
+  KrigingSystem(Db*, Db*, Model*, ANeigh*) {}
+  int updKrigOptEstim(int, int, int) { return nondet_bool(); } int setKrigOptCalcul(const EKrigOpt&, const VectorInt&, bool) { return nondet_bool(); }
+  int setKrigOptColCok(const VectorInt&) { return nondet_bool(); } int setKrigOptMatLC(const MatrixRectangular*) { return nondet_bool(); } int setKrigOptDGM(bool) { return nondet_bool(); }
+  void setKrigOptBayes(bool, const VectorDouble&, const MatrixSquareSymmetric&) {} int setKrigoptCode(bool) { return nondet_bool(); } int setKrigOptAnamophosis(AAnam*) { return nondet_bool(); }
+  int setKrigOptXValid(bool, bool, bool, bool, bool) { return nondet_bool(); } int updKrigOptNeighOnly(int) { return nondet_bool(); } bool isReady() { return nondet_bool(); }
+  int estimate(int iech_out) { g_est_calls++; g_est_last = iech_out; return nondet_bool(); }
+  void conclusion() {} };
+class CalcKriging { public:
+  Db* _dbin; Db* _dbout; Model* _model; ANeigh* _neigh; int _iptrEst, _iptrStd, _iptrVarZ, _iptrNeigh, _iechSingleTarget, _flagXvalidEst, _flagXvalidStd, _flagXvalidVarZ;
+  EKrigOpt _calcul; VectorInt _ndiscs, _rankColCok; const MatrixRectangular* _matLC; VectorDouble _priorMean; MatrixSquareSymmetric _priorCov; AAnam* _anam;
+  bool _flagPerCell, _flagDGM, _flagBayes, _flagProf, _flagGam, _flagXvalid, _flagKfold, _flagNeighOnly, _verboseSingleTarget;
+  Db* getDbin() const { return _dbin; } Db* getDbout() const { return _dbout; } Model* getModel() const { return _model; } ANeigh* getNeigh() const { return _neigh; }
+  void _storeResultsForExport(const KrigingSystem& ksys) { g_export_calls++; g_export_after = g_est_last; }
+  bool _run(); };
+"""
+    f = Fn("CalcKriging::_run", "src/Estimation/CalcKriging.cpp", r"^bool CalcKriging::_run\(\)\s*$")
+    h = """
+void vf_harness()
+{
+  CalcKriging K; Db din, dout; Model m; ANeigh n; dout.n = 3;
+  K._dbin = &din; K._dbout = &dout; K._model = &m; K._neigh = &n; K._matLC = 0; K._anam = 0;
+  K._flagPerCell = nondet_bool(); K._flagDGM = nondet_bool(); K._flagBayes = nondet_bool(); K._flagProf = nondet_bool(); K._flagGam = nondet_bool(); K._flagXvalid = nondet_bool();
+  K._flagKfold = nondet_bool(); K._flagNeighOnly = nondet_bool(); K._verboseSingleTarget = nondet_bool(); K._flagXvalidEst = 1; K._flagXvalidStd = 1; K._flagXvalidVarZ = 0;
+  K._iechSingleTarget = nondet_int(); __CPROVER_assume(-1 <= K._iechSingleTarget && K._iechSingleTarget < 3);
+  g_est_calls = 0; g_est_last = -1; g_export_calls = 0; g_export_after = -1;
+  bool ok = K._run();
+  if (ok && K._iechSingleTarget < 0) __CPROVER_assert(g_est_calls == 3 && g_export_calls == 0, "without a single target every target is processed and nothing is exported");
+  if (ok && K._iechSingleTarget >= 0) {
+    __CPROVER_assert(g_est_calls == 1 && g_est_last == K._iechSingleTarget, "with a single target requested exactly that target is processed (rank 0 included)");
+    __CPROVER_assert(g_export_calls == 1 && g_export_after == K._iechSingleTarget, "and the system exported is the one of that target"); }
+  VF_REACH();
+}
+"""
+    return Unit("C10.CalcKriging.single_target", [f], mode="cpp", prelude=pre, harness=h, unwind=5, checks=[], backends=("minisat", "cadical"), timeout=300,
+                bounded="3 targets (unwinding assertions)",
+                claim=("CalcKriging::_run (behind kriging / krigtest): with a single target requested exactly that target is estimated - rank 0 included - and the system "
+                       "exported afterwards is the one of that target; otherwise every target is processed and nothing is exported"),
+                assumptions=["Route X; KrigingSystem is a stub whose option setters and estimate() may fail"],
+                canaries=[{"fn": "CalcKriging::_run", "rx": r"if \(_iechSingleTarget >= 0\) _storeResultsForExport\(ksys\);", "rp": ";", "expect": r"assertion"}])
+
+
 def units(tier):
-    return [unit_optim_pairing(), unit_krigcalc(), unit_estimate_status()]
+    return [unit_optim_pairing(), unit_krigcalc(), unit_estimate_status(), unit_single_target()]
 
 
 META = {
